@@ -325,9 +325,11 @@ pub fn make_scenario(rng: &mut Rng, o: &ScOpts) -> Scenario {
             lba_start: next_lba,
             tail_blocks: rng.below(bpc as u64) as u32,
             root_cluster: if fat32 { *rng.pick(&[2u32, 2, 5, 9]) } else { 0 },
-            info: if !fat32 { InfoInit::Unknown } else if o.stale_info { match rng.below(6) { 0 => InfoInit::Unknown, 1 => InfoInit::Stale { free: 0, next: 0xFFFF_FFF0 }, 2 => InfoInit::Stale { free: rng.next() as u32, next: rng.below(70000) as u32 },
+            info: if !fat32 { InfoInit::Unknown } else if o.stale_info { match rng.below(7) { 0 => InfoInit::Unknown, 1 => InfoInit::Stale { free: 0, next: 0xFFFF_FFF0 }, 2 => InfoInit::Stale { free: rng.next() as u32, next: rng.below(70000) as u32 },
                 // a hint naming a cluster that is IN USE (the formatter allocates from cluster 2 upwards: root, first files)
-                3 | 4 => InfoInit::Stale { free: rng.below(70000) as u32, next: 2 + rng.below(8) as u32 }, _ => InfoInit::Correct } } else { match rng.below(3) { 0 => InfoInit::Unknown, _ => InfoInit::Correct } },
+                3 | 4 => InfoInit::Stale { free: rng.below(70000) as u32, next: 2 + rng.below(8) as u32 },
+                // a hint at cluster 0x10000 (free on these volumes): the next allocation gets a cluster number whose low 16 bits are 0
+                5 => InfoInit::Stale { free: rng.below(70000) as u32, next: 0x1_0000 }, _ => InfoInit::Correct } } else { match rng.below(3) { 0 => InfoInit::Unknown, _ => InfoInit::Correct } },
             part_type: if fat32 { 0x0C } else { 0x06 },
             // a blank label in the boot sector makes `get_root_volume_label` fall back to the root directory
             label: if rng.chance(1, 3) { *b"           " } else { *b"VERIF      " },
